@@ -128,6 +128,24 @@ class Layout:
         if k in ('func', 'chan'):
             return [I]
         raise Unsupported('type %s' % t['s'])
+    def int_slots(self, tid, depth=0):
+        """[(slot index in flatten order, (width, signed), array levels)] of the fixed-width integers inside a value"""
+        t = self.tt[tid]
+        k = t.get('k')
+        ii = self.tt.intinfo(tid)
+        if ii:
+            return [(0, ii, 0)] if ii[0] else []
+        if self.scalar_sort(tid) is not None or depth > 6:
+            return []
+        if k == 'array':
+            return [(i, inf, n + 1) for (i, inf, n) in self.int_slots(t['e'], depth + 1)]
+        if k == 'struct':
+            out, base = [], 0
+            for f in t['f']:
+                out += [(base + i, inf, n) for (i, inf, n) in self.int_slots(f['t'], depth + 1)]
+                base += len(self.sorts(f['t'], depth + 1))
+            return out
+        return []
     def ref_slots(self, tid, depth=0):
         """[(slot index in flatten order, number of array levels around it)] of the object references inside a value of
         the type (pointers, interface values); map contents are not tracked."""
@@ -210,6 +228,10 @@ class Layout:
         ss = self.sorts(tid)
         terms = [fresh('%s.%d' % (name, i) if len(ss) > 1 else name, s) for i, s in enumerate(ss)]
         return self.unflatten(iter(terms), tid)
+    def maxlen(self):
+        # lengths are values of type int: 32 bits in code compiled by GopherJS
+        return (1 << 31) - 1 if getattr(self.tt, 'word', 64) == 32 else MAXLEN
+
     def wf(self, v, tid, depth=0):
         """Type invariants of a symbolic value (the 'is_valid' predicate put into preconditions)."""
         t = self.tt[tid]
@@ -221,17 +243,30 @@ class Layout:
             if w:
                 out.append(z3.And(v >= (-(1 << (w - 1)) if s else 0), v <= ((1 << (w - 1)) - 1 if s else (1 << w) - 1)))
         elif isinstance(v, StrV):
-            out += [v.off >= 0, v.len >= 0, v.len <= MAXLEN, v.off <= MAXLEN]
+            out += [v.off >= 0, v.len >= 0, v.len <= self.maxlen(), v.off <= MAXLEN]
             kq = fresh('k!wf')
             out.append(z3.ForAll([kq], z3.And(z3.Select(v.arr, kq) >= 0, z3.Select(v.arr, kq) <= 255)))
         elif isinstance(v, SliceV):
-            out += [v.off >= 0, v.len >= 0, v.len <= v.cap, v.cap <= MAXLEN, v.off <= MAXLEN, z3.Implies(v.isnil, v.cap == 0)]
+            out += [v.off >= 0, v.len >= 0, v.len <= v.cap, v.cap <= self.maxlen(), v.off <= MAXLEN, z3.Implies(v.isnil, v.cap == 0)]
             ei = self.tt.intinfo(v.etid)
             if ei and self.mode != 'bv' and ei[0]:
                 w, s = ei
                 kq = fresh('k!wf')
                 lo, hi = (-(1 << (w - 1)) if s else 0), ((1 << (w - 1)) - 1 if s else (1 << w) - 1)
                 out.append(z3.ForAll([kq], z3.And(z3.Select(v.arrs[0], kq) >= lo, z3.Select(v.arrs[0], kq) <= hi)))
+            elif self.mode != 'bv' and self.tt.kind(v.etid) in ('struct', 'array'):
+                # elements that are structs / arrays of fixed-width integers: every stored component is in range
+                try:
+                    slots = self.int_slots(v.etid)
+                except Unsupported:
+                    slots = []
+                for (i, (w, s), n) in slots:
+                    if i >= len(v.arrs): continue
+                    ks = [fresh('k!wf') for _ in range(n + 1)]
+                    x = v.arrs[i]
+                    for kq in ks: x = z3.Select(x, kq)
+                    lo, hi = (-(1 << (w - 1)) if s else 0), ((1 << (w - 1)) - 1 if s else (1 << w) - 1)
+                    out.append(z3.ForAll(ks, z3.And(x >= lo, x <= hi), patterns=[x]))
         elif isinstance(v, ArrayV):
             ei = self.tt.intinfo(v.etid)
             if ei and self.mode != 'bv' and ei[0]:
